@@ -970,7 +970,22 @@ impl Session {
     async fn write_with_padding(&self, buffer: BytesMut) -> Result<()> {
         // The writer guard lives inside write_with_padding_locked: it is released before
         // handle_io_error closes the session, because close() takes the writer itself.
-        match self.write_with_padding_locked(buffer).await {
+        //
+        // A close that happens while the write is in progress cancels it (dropping the guard):
+        // otherwise close() would wait without bound behind a write the transport never
+        // completes (peer stopped reading), and that write would never return.
+        let closed = self.close_notify.notified();
+        tokio::pin!(closed);
+        closed.as_mut().enable();
+        if self.is_closed() {
+            return Err(AnyTlsError::SessionClosed);
+        }
+        let result = tokio::select! {
+            biased;
+            r = self.write_with_padding_locked(buffer) => r,
+            _ = &mut closed => return Err(AnyTlsError::SessionClosed),
+        };
+        match result {
             Ok(()) => Ok(()),
             Err((context, e)) => Err(self.handle_io_error(context, e).await),
         }
